@@ -397,6 +397,16 @@ func genC08(t *rapid.T) c08Case {
 		}
 		add(tw, true)
 	}
+	if rare(t, "many-matching-rules", 12) {
+		// 70 to 130 base rules that match whatever the other rules match on example.org: positions beyond 64 in the matched slice
+		for i := rapid.IntRange(70, 130).Draw(t, "nmass"); i > 0; i-- {
+			m := NetModel{Pat: pick(t, "mass-pat", []string{"||example.org^", "example", "example.org/"}), GRestr: []string{fmt.Sprintf("mass%03d", i)}}
+			if !keys[modelKey(m)] {
+				keys[modelKey(m)] = true
+				add(m, false)
+			}
+		}
+	}
 	var models []NetModel
 	for _, l := range c.Lines {
 		models = append(models, l.Model)
